@@ -100,6 +100,39 @@ Proof.
   cbn [andb]. rewrite Nat2Z.id, Rj. reflexivity.
 Qed.
 
+(* the position of the first occurrence of k (the length when there is none) *)
+Fixpoint index_str (k : pystr) (Og : list pystr) : nat :=
+  match Og with
+  | [] => 0%nat
+  | r :: Og' => if pystr_eqb r k then 0%nat else S (index_str k Og')
+  end.
+
+Lemma replace_nth_length {A} n (v : A) l : length (replace_nth n v l) = length l.
+Proof. revert n. induction l as [|x l IH]; intros [|n]; cbn [replace_nth length]; try reflexivity. rewrite IH. reflexivity. Qed.
+
+Lemma map_replace_nth n v R : replace_nth n (PStr v) (map PStr R) = map PStr (replace_nth n v R).
+Proof. revert n. induction R as [|r R IH]; intros [|n]; cbn [replace_nth map]; try reflexivity. rewrite IH. reflexivity. Qed.
+
+(* original.index(k), then required[that] = v, on two lists of the same length *)
+Lemma strs_replace_at k v Og R : str_in k Og = true -> length Og = length R ->
+  exists j, py_list_index (strs Og) (PStr k) = Ok (zint j) /\
+            py_setitem (strs R) (zint j) (PStr v) = Ok (strs (replace_nth (index_str k Og) v R)).
+Proof.
+  intros H Hl. unfold strs, py_list_index, py_setitem.
+  assert (G : forall Og i, str_in k Og = true ->
+              index_of (map PStr Og) (PStr k) i = Some (i + Z.of_nat (index_str k Og)) /\ (index_str k Og < length Og)%nat).
+  { clear. induction Og as [|r Og IH]; intros i H; [discriminate H|].
+    cbn [str_in existsb] in H. cbn [map index_of py_eq index_str length]. rewrite (pystr_eqb_sym k r) in H.
+    destruct (pystr_eqb r k) eqn:E.
+    - split; [f_equal; lia | lia].
+    - cbn [orb] in H. destruct (IH (i + 1) H) as (Ej & Lj). split; [rewrite Ej; f_equal; lia | lia]. }
+  destruct (G Og 0 H) as (Ej & Lj). exists (Z.of_nat (index_str k Og)). rewrite Ej. split; [reflexivity|].
+  unfold zint, PyOps.lenZ'. rewrite map_length.
+  replace (0 <=? Z.of_nat (index_str k Og)) with true by (symmetry; apply Z.leb_le; lia).
+  replace (Z.of_nat (index_str k Og) <? Z.of_nat (length R)) with true by (symmetry; apply Z.ltb_lt; lia).
+  cbn [andb]. rewrite Nat2Z.id, map_replace_nth. reflexivity.
+Qed.
+
 Lemma strs_append R v : py_list_append (strs R) (PStr v) = Ok (strs (R ++ [v])).
 Proof. unfold strs, py_list_append. rewrite map_app. reflexivity. Qed.
 
@@ -129,16 +162,36 @@ Section ClassView.
   (* the schema of one property, as the dict the source builds *)
   Definition prop_json (d : fdecl) : pyval := sch_json pat_text (prop_schema ei d).
 
-  (* one round of the loop of _generate_schema_for_fields_internal on the state (properties, required) *)
-  Definition step (m : renames) (st : list (pyval * pyval) * list pystr) (d : fdecl) : list (pyval * pyval) * list pystr :=
+  (* one round of the loop of _generate_schema_for_fields_internal on the state (original, properties, required):
+     [original] keeps, position by position, the field name each entry of [required] stands for *)
+  Definition step (m : renames) (st : list pystr * list (pyval * pyval) * list pystr) (d : fdecl)
+    : list pystr * list (pyval * pyval) * list pystr :=
+    let '(Og, P, R) := st in
     let key := fd_name d in
     let mk := rename m key in
-    let req1 := if str_in key (snd st) then replace_first key mk (snd st) else snd st in
-    let req2 := match fd_default d with
-                | Some _ => if str_in mk req1 then req1 else req1 ++ [mk]
-                | None => req1
-                end in
-    (dict_set (fst st) (PStr mk) (prop_json d), req2).
+    let req1 := if str_in key Og then replace_nth (index_str key Og) mk R else R in
+    let P1 := dict_set P (PStr mk) (prop_json d) in
+    match fd_default d with
+    | Some _ => if str_in key Og then (Og, P1, req1) else (Og ++ [key], P1, req1 ++ [mk])
+    | None => (Og, P1, req1)
+    end.
+
+  (* the loop started on (properties P, required R): the final (properties, required) *)
+  Definition run_fields (m : renames) (fs : list fdecl) (P : list (pyval * pyval)) (R : list pystr)
+    : list (pyval * pyval) * list pystr :=
+    let st := fold_left (step m) fs (R, P, R) in (snd (fst st), snd st).
+
+  Lemma step_aligned m Og P R d :
+    length Og = length R ->
+    let '(Og1, _, R1) := step m (Og, P, R) d in length Og1 = length R1.
+  Proof.
+    intro Hl. unfold step.
+    assert (L1 : length Og = length (if str_in (fd_name d) Og
+                                    then replace_nth (index_str (fd_name d) Og) (rename m (fd_name d)) R else R)).
+    { destruct (str_in (fd_name d) Og); [rewrite replace_nth_length|]; exact Hl. }
+    destruct (fd_default d); [destruct (str_in (fd_name d) Og) eqn:E|]; try exact L1.
+    rewrite !app_length. cbn [length]. rewrite Hl. reflexivity.
+  Qed.
 
   Definition item (d : fdecl) : pyval := PTuple [PStr (fd_name d); fdecl_obj d].
 
@@ -200,18 +253,20 @@ Section ClassView.
   Lemma generated_generate_schema_for_fields : forall m fs P R,
       (forall d, In d fs -> field_ready d) ->
       generate_schema_for_fields_internal h agg s2s defs_store rec (fields_dict fs) (ren_dict m) (PDict P) (strs R)
-      = Ok (PTuple [PDict (fst (fold_left (step m) fs (P, R))); strs (snd (fold_left (step m) fs (P, R)))]).
+      = Ok (PTuple [PDict (fst (run_fields m fs P R)); strs (snd (run_fields m fs P R))]).
   Proof.
-    intros m fs P R Hall. unfold generate_schema_for_fields_internal, fields_dict.
+    intros m fs P R Hall. unfold generate_schema_for_fields_internal, fields_dict, run_fields.
+    change (py_list (strs R)) with (Ok (strs R)).
     cbn [py_dict_items bind py_for_state]. rewrite map_map. cbn [fst snd].
     match goal with |- context [for_state _ ?B _] => set (B0 := B) end.
-    assert (Hstep : forall d P R, field_ready d ->
-                B0 (PTuple [PStr (fd_name d); fdecl_obj d]) (PDict P, strs R)
-                = Ok (PDict (fst (step m (P, R) d)), strs (snd (step m (P, R) d)))).
-    { clear. intros d P R [Hrec Hd]. subst B0. cbv beta.
+    assert (Hstep : forall d Og P R, field_ready d -> length Og = length R ->
+                B0 (PTuple [PStr (fd_name d); fdecl_obj d]) (strs Og, PDict P, strs R)
+                = Ok (strs (fst (fst (step m (Og, P, R) d))), PDict (snd (fst (step m (Og, P, R) d))),
+                      strs (snd (step m (Og, P, R) d)))).
+    { clear. intros d Og P R [Hrec Hd] Hlen. subst B0. cbv beta.
       cbn [py_unpack2 bind pair_fst pair_snd fst snd].
       rewrite !ren_in, !generated_validated_mapped_value. unfold alist_has. rewrite !ren_getitem.
-      unfold step. cbn [fst snd]. unfold rename.
+      unfold step. unfold rename.
       set (name := fd_name d) in *.
       assert (E8 : exists mk, mk = match alist_get m name with Some k' => k' | None => name end) by (eexists; reflexivity).
       destruct E8 as (mk & Emk). rewrite <- Emk.
@@ -224,13 +279,6 @@ Section ClassView.
       rewrite T8. clear T8. cbn [bind py_or py_is_class py_isinstance_any isinstance_i].
       rewrite !strs_in. cbn [bind py_format]. rewrite !ren_get_def. cbn [bind]. rewrite !Hrec. cbn [bind].
       rewrite !default_attr.
-      assert (Tail : forall R1 sub (dv : pyval),
-                 (c2 <- py_not (Ok (str_in mk R1)) ;;
-                  (if c2 then t36 <- py_list_append (strs R1) (PStr mk) ;; t38 <- py_setitem (PDict P) (PStr mk) sub ;; Ok (t38, t36)
-                   else t40 <- py_setitem (PDict P) (PStr mk) sub ;; Ok (t40, strs R1)))
-                 = Ok (PDict (dict_set P (PStr mk) sub), strs (if str_in mk R1 then R1 else R1 ++ [mk]))).
-      { intros R1 sub dv. cbn [py_not bind]. destruct (str_in mk R1); cbn [negb]; [reflexivity|].
-        rewrite strs_append. reflexivity. }
       assert (Dflt : forall R1,
                  (t25 <- Ok match fd_default d with Some v => v | None => PNone end ;;
                   (if py_is_not_none t25
@@ -242,35 +290,44 @@ Section ClassView.
                      then
                       t31 <- hobj_attr h t29 (s2p "name") ;;
                       t34 <- py_setitem (sch_json pat_text (fschema ei (fd_field d))) (PStr (s2p "default")) t31 ;;
-                      c2 <- py_not (Ok (str_in mk R1)) ;;
-                      (if c2 then t36 <- py_list_append (strs R1) (PStr mk) ;; t38 <- py_setitem (PDict P) (PStr mk) t34 ;; Ok (t38, t36)
-                       else t40 <- py_setitem (PDict P) (PStr mk) t34 ;; Ok (t40, strs R1))
+                      c2 <- py_not (Ok (str_in name Og)) ;;
+                      (if c2 then t36 <- py_list_append (strs R1) (PStr mk) ;; t37 <- py_list_append (strs Og) (PStr name) ;;
+                                  t38 <- py_setitem (PDict P) (PStr mk) t34 ;; Ok (t37, t38, t36)
+                       else t40 <- py_setitem (PDict P) (PStr mk) t34 ;; Ok (strs Og, t40, strs R1))
                      else
                       t43 <- py_setitem (sch_json pat_text (fschema ei (fd_field d))) (PStr (s2p "default")) t29 ;;
-                      c2 <- py_not (Ok (str_in mk R1)) ;;
-                      (if c2 then t45 <- py_list_append (strs R1) (PStr mk) ;; t47 <- py_setitem (PDict P) (PStr mk) t43 ;; Ok (t47, t45)
-                       else t49 <- py_setitem (PDict P) (PStr mk) t43 ;; Ok (t49, strs R1)))
-                   else t51 <- py_setitem (PDict P) (PStr mk) (sch_json pat_text (fschema ei (fd_field d))) ;; Ok (t51, strs R1)))
-                 = Ok (PDict (dict_set P (PStr mk) (prop_json d)),
-                       strs match fd_default d with
-                            | Some _ => if str_in mk R1 then R1 else R1 ++ [mk]
-                            | None => R1
-                            end)).
+                      c2 <- py_not (Ok (str_in name Og)) ;;
+                      (if c2 then t45 <- py_list_append (strs R1) (PStr mk) ;; t46 <- py_list_append (strs Og) (PStr name) ;;
+                                  t47 <- py_setitem (PDict P) (PStr mk) t43 ;; Ok (t46, t47, t45)
+                       else t49 <- py_setitem (PDict P) (PStr mk) t43 ;; Ok (strs Og, t49, strs R1)))
+                   else t51 <- py_setitem (PDict P) (PStr mk) (sch_json pat_text (fschema ei (fd_field d))) ;; Ok (strs Og, t51, strs R1)))
+                 = Ok (strs match fd_default d with Some _ => if str_in name Og then Og else Og ++ [name] | None => Og end,
+                       PDict (dict_set P (PStr mk) (prop_json d)),
+                       strs match fd_default d with Some _ => if str_in name Og then R1 else R1 ++ [mk] | None => R1 end)).
       { intro R1. unfold prop_json, prop_schema. destruct (fd_default d) as [v|]; cbn [bind].
         - destruct v as [|b|n|s0|l|l|l|fr l|kv0|c n y|c ats|tg r]; try discriminate Hd;
             cbn [py_is_not_none py_is_none negb py_callable bind py_truthy py_isinstance_any isinstance_i];
             rewrite ?enum_name; cbn [bind];
-            rewrite set_default; cbn [bind]; rewrite (Tail R1 _ PNone); reflexivity.
+            rewrite set_default; cbn [bind py_not];
+            (destruct (str_in name Og); cbn [negb bind]; [reflexivity | rewrite !strs_append; reflexivity]).
         - cbn [py_is_not_none py_is_none negb py_setitem py_dict_setitem py_hashable']. reflexivity. }
-      destruct (str_in name R) eqn:Ein; cbn [bind].
-      - destruct (strs_replace name mk R Ein) as (j & E1 & E2). rewrite E1. cbn [bind]. rewrite E2. cbn [bind].
-        rewrite !strs_in. apply Dflt.
-      - apply Dflt. }
-    clearbody B0. revert P R. induction fs as [|d fs IH]; intros P R.
-    - reflexivity.
-    - cbn [map for_state fold_left]. rewrite (Hstep d P R (Hall d (or_introl eq_refl))). cbn [bind].
-      destruct (step m (P, R) d) as [P1 R1] eqn:Es. cbn [fst snd].
-      apply IH. intros d' Hd'. apply Hall. right. exact Hd'.
+      destruct (str_in name Og) eqn:Ein; cbn [bind].
+      - destruct (strs_replace_at name mk Og R Ein Hlen) as (j & E1 & E2). rewrite E1. cbn [bind]. rewrite E2. cbn [bind].
+        etransitivity; [exact (Dflt (replace_nth (index_str name Og) mk R))|].
+        destruct (fd_default d); reflexivity.
+      - etransitivity; [exact (Dflt R)|]. destruct (fd_default d); reflexivity. }
+    clearbody B0.
+    assert (Gen : forall fs Og P R, (forall d, In d fs -> field_ready d) -> length Og = length R ->
+                for_state (map (fun d => PTuple [PStr (fd_name d); fdecl_obj d]) fs) B0 (strs Og, PDict P, strs R)
+                = Ok (strs (fst (fst (fold_left (step m) fs (Og, P, R)))), PDict (snd (fst (fold_left (step m) fs (Og, P, R)))),
+                      strs (snd (fold_left (step m) fs (Og, P, R))))).
+    { clear fs P R Hall. induction fs as [|d fs IH]; intros Og P R Hall Hlen.
+      - reflexivity.
+      - cbn [map for_state fold_left]. rewrite (Hstep d Og P R (Hall d (or_introl eq_refl)) Hlen). cbn [bind].
+        pose proof (step_aligned m Og P R d Hlen) as Hal.
+        destruct (step m (Og, P, R) d) as [[Og1 P1] R1] eqn:Es. cbn [fst snd].
+        apply IH; [intros d' Hd'; apply Hall; right; exact Hd' | exact Hal]. }
+    rewrite (Gen fs R P R Hall eq_refl). cbn [bind]. reflexivity.
   Qed.
 
   (* ---------------------------------------------------------------- structure_to_schema *)
@@ -343,7 +400,7 @@ Section ClassView.
     cs_agg : agg (cls_val (c_name c)) sm = Ok (ren_dict m) }.
 
   Definition class_json (m : renames) (c : classdef) : pyval :=
-    let st := fold_left (step m) (c_fields c) ([], c_required c) in
+    let st := run_fields m (c_fields c) [] (c_required c) in
     PDict [(PStr (s2p "type"), PStr (s2p "object"));
            (PStr (s2p "properties"), PDict (fst st));
            (PStr (s2p "required"), strs (cp_sort (snd st)));
@@ -403,7 +460,7 @@ Section ClassView.
       cbn [bind]. fold (fields_dict (c_fields c)).
       rewrite (generated_generate_schema_for_fields m (c_fields c) [] (c_required c) Hready).
       cbn [bind py_index nth_error].
-      set (st := fold_left (step m) (c_fields c) ([], c_required c)).
+      set (st := run_fields m (c_fields c) [] (c_required c)).
       change (py_setitem (PDict [(PStr (s2p "type"), PStr (s2p "object")); (PStr (s2p "properties"), PDict [])])
                          (PStr (s2p "properties")) (PDict (fst st)))
         with (Ok (PDict [(PStr (s2p "type"), PStr (s2p "object")); (PStr (s2p "properties"), PDict (fst st))])).
@@ -468,21 +525,21 @@ Proof.
   repeat split; vm_compute; reflexivity.
 Qed.
 
-(* DISAGREEMENT with the hand model's [required_out] (which renames every required name at once): the source renames
-   the required entries field by field, so a rename whose target is the name of a LATER field is renamed again.
-   Fields x, a; required [x]; mapper {x: "a", a: "z"}: the source (and the real library) export required ["z"],
-   the hand model ["a"]. *)
+(* Chained renames over sibling names: the source keeps, next to the required list it renames in place, the field name
+   each entry stands for, so an entry renamed to the NAME of a later field is not renamed again (before that repair the
+   source exported required ["z"] here).  Fields x, a; required [x]; mapper {x: "a", a: "z"}: source and hand model
+   both export required ["a"]. *)
 Definition ex_chain := ex_cls "C" [ex_fd "x" (FNumber KInteger SAny no_numc) None; ex_fd "a" (FString no_strc) None] ["x"] true.
 Definition ex_chain_map : renames := [(s2p "x", s2p "a"); (s2p "a", s2p "z")].
 Example source_vs_hand_model_chained_renames :
-  snd (fold_left (step ex_pt no_einfo ex_chain_map) (c_fields ex_chain) ([], c_required ex_chain)) = [s2p "z"] /\
+  snd (run_fields ex_pt no_einfo ex_chain_map (c_fields ex_chain) [] (c_required ex_chain)) = [s2p "a"] /\
   required_out ex_chain_map ex_chain = [s2p "a"] /\
   structure_to_schema (heap_of ex_pt no_einfo [ex_chain]) (fun _ _ => Ok (ren_dict ex_chain_map)) (fun _ _ => Ok tt) 6%nat 3%nat
                       (cls_val (s2p "C")) PNone
   = Ok (PTuple [PDict [(PStr (s2p "type"), PStr (s2p "object"));
                        (PStr (s2p "properties"), PDict [(PStr (s2p "a"), PDict [(PStr (s2p "type"), PStr (s2p "integer"))]);
                                                         (PStr (s2p "z"), PDict [(PStr (s2p "type"), PStr (s2p "string"))])]);
-                       (PStr (s2p "required"), PList [PStr (s2p "z")]);
+                       (PStr (s2p "required"), PList [PStr (s2p "a")]);
                        (PStr (s2p "additionalProperties"), PBool true)]; defs_token]).
 Proof. repeat split; vm_compute; reflexivity. Qed.
 
